@@ -5,9 +5,14 @@ import TapkeeVerif.Model.Dijkstra
 import TapkeeVerif.Model.DijkstraSpec
 import TapkeeVerif.Model.IsomapPre
 import TapkeeVerif.Model.Cert
+import TapkeeVerif.Model.DijkstraSched
+import TapkeeVerif.Model.DijkstraFib
 /-! Line-protocol driver for property C04 (DESIGN §11).
 
-  in : `geo heap=pq|fib N=4 lists=1,2;2,3;3,0;0,1 w=0,1,4,2;… lm=2,0 [ch=seed]`
+  in : `geo heap=pq|fib|fibheap N=4 lists=1,2;2,3;3,0;0,1 w=0,1,4,2;… lm=2,0 [ch=seed] [sched=seed threads=T]`
+       `heap=fibheap`: the Fibonacci build with the concrete heap model of property C16 (`Model/DijkstraFib.lean`);
+       `sched=`: run the iterations as a pseudo-random schedule over `T` threads with garbage-filled scratch state
+       (`Model/DijkstraSched.lean`) instead of sequentially
   out: `F=<N rows> L=<rows>`       rows `;`-separated, entries `,`-separated, `dblmax` = not reached;
                                     `F=ERR:oob` when the model reaches undefined behaviour
 
@@ -60,6 +65,7 @@ def showRows {n : Nat} (rows : List (Vector (Option Rat) n)) : String :=
 def showErr : Err → String
   | .oob => "ERR:oob"
   | .fuel => "ERR:fuel"
+  | .heap => "ERR:heap"
 
 def mkW (W : Array (Array Rat)) : Nat → Nat → Rat := fun u x => ((W[u]?).bind (·[x]?)).getD 0
 
@@ -84,12 +90,68 @@ def parseCase (fs : List (String × String)) : Option Case := do
     | some s => parseNats s ","
   pure { P := { N := N, nbrs := lists, w := mkW W }, lm := lm, hasLm := lmS.isSome }
 
+/-- a pseudo-random schedule: every loop index `< R` once, in a scrambled order, on scrambled threads -/
+def mkSchedule (seed R T : Nat) : List (Nat × Nat) :=
+  let keyed := (List.range R).map fun r => ((seed * 2654435761 + r * 40503 + r * r * 7) % 1000003, r)
+  let sorted := keyed.toArray.qsort (fun a b => a.1 < b.1 || (a.1 == b.1 && a.2 < b.2))
+  sorted.toList.map fun (key, r) => ((key + seed) % (if T = 0 then 1 else T), r)
+
+def garbageWorld (N R T : Nat) : World Rat N :=
+  { rows := List.replicate R (Vector.replicate N (some 7)),
+    scr := List.replicate T { s := Vector.replicate N true, f := Vector.replicate N true, heap := [] } }
+
+def runSched (P : Problem Rat) (disc : Disc) (k : Nat) (ch : Nat → Nat → Nat) (srcOf flagOf : Nat → Nat)
+    (seed R T : Nat) : Except Err (List (Vector (Option Rat) P.N)) :=
+  match runSchedule P disc k ch srcOf flagOf (mkSchedule seed R T) (garbageWorld P.N R T) with
+  | .ok W => .ok W.rows
+  | .error e => .error e
+
+def lcmDen (W : Array (Array Rat)) : Nat := W.foldl (fun acc r => r.foldl (fun a q => Nat.lcm a q.den) acc) 1
+
+/-- the concrete-heap model works on `Int` keys: scale the dyadic weights by their common denominator -/
+def fibHeapRun (c : Problem Rat) (W : Array (Array Rat)) (lm : Option (List Nat)) : String × String :=
+  let den := lcmDen W
+  let P' : Problem Int := { N := c.N, nbrs := c.nbrs, w := fun u x => (mkW W u x * (den : Rat)).num }
+  let back (rows : List (Vector (Option Int) c.N)) : List (Vector (Option Rat) c.N) :=
+    rows.map fun r => r.map fun o => o.map fun (z : Int) => (z : Rat) / (den : Rat)
+  let f := match fibAllPairs P' with
+    | .ok rows => showRows (back rows)
+    | .error e => showErr e
+  let l := match lm with
+    | none => ""
+    | some lm => match fibLandmarkRows P' lm with
+      | .ok rows => showRows (back rows)
+      | .error e => showErr e
+  (f, l)
+
 def answerGeo (fs : List (String × String)) : String :=
   match parseCase fs with
   | none => "bad-case"
   | some c =>
-    let disc := discOf ((field? fs "heap").getD "pq")
+    let heap := (field? fs "heap").getD "pq"
+    if heap == "fibheap" then
+      match parseRatMat ((field? fs "w").getD "") with
+      | none => "bad-case"
+      | some W =>
+        let (f, l) := fibHeapRun c.P W (if c.hasLm then some c.lm else none)
+        s!"F={f} L={l}"
+    else
+    let disc := discOf heap
     let seed := ((field? fs "ch") >>= String.toNat?).getD 0
+    match field? fs "sched" >>= String.toNat?, c.P.k? with
+    | some ss, some k =>
+      let T := ((field? fs "threads") >>= String.toNat?).getD 3
+      let f := match runSched c.P disc k (chooser seed) id id ss c.P.N T with
+        | .ok rows => showRows rows
+        | .error e => showErr e
+      let l := if c.hasLm then
+          match runSched c.P disc k (chooser (seed + 1)) (fun r => c.lm.getD r 0)
+              (fun r => Gen.Isomap.landmarkFlag r (c.lm.getD r 0)) (ss + 1) c.lm.length T with
+          | .ok rows => showRows rows
+          | .error e => showErr e
+        else ""
+      s!"F={f} L={l}"
+    | _, _ =>
     let f := match allPairs c.P disc (chooser seed) with
       | .ok rows => showRows rows
       | .error e => showErr e
